@@ -258,7 +258,7 @@ M("c10-blank-condition-false", "C10", "C10.TABLE", (ACX, "        if self.locati
 M("c10-failed-condition-fires", "C10", "C10.TABLE", (ACX, "        if not success:\n            # a condition that cannot be evaluated is not true\n            return False\n", "        if not success:\n            return True\n"))
 M("c10-truthy-everything", "C10", "C10.TABLE", (UTL, "return string.lower() in (\"yes\", \"true\", \"t\", \"1\", \"y\")", "return string.lower() not in (\"no\", \"false\", \"f\", \"0\", \"n\")"))
 M("c10-metric-ignores-condition", "C10", "C10.TABLE", (METR, "        if self.__has_metric_processor():\n            return super().can_trigger()\n        return False", "        return self.__has_metric_processor()"))
-M("c10-watch-no-tag-test", "C10", "C10.DISCRIM", (ACX, "            if not success:\n                # the expression could not be evaluated, so this is an error result (result is the exception)\n                return WatchResult(source, watch, None, str(result)), {}, str(result)\n", ""))
+M("c10-watch-no-tag-test", "C10", "C10.DISCRIM", (ACX, "            if not success:\n                # the expression could not be evaluated, so this is an error result (result is the exception)\n                error = safe_str(result)\n                return WatchResult(source, watch, None, error), {}, error\n", ""))
 M("c10-second-eval", "C10", "C10.SCOPE", (METR, "                metric_value = float(self.trigger_context.evaluate_expression(metric.expression))", "                metric_value = float(eval(metric.expression))"))
 M("c10-record-on-reject", "C10", "C10.BUDGET", (ACX, "        if self.has_triggered():\n            self.location_action.record_triggered(self.trigger_context.ts)", "        self.location_action.record_triggered(self.trigger_context.ts)"))
 M("c10-wrong-text", "C10", "C10.SCOPE", (ACX, "success, result = self.trigger_context.try_evaluate_expression(self.location_action.condition)", "success, result = self.trigger_context.try_evaluate_expression(self.location_action.condition.lower())"))
@@ -345,7 +345,7 @@ M("c06-unguarded-attribute-dict", "C06", "C06.TOTAL", (VPF, "    try:\n        r
 M("c06-attribute-dict-none-unchecked", "C06", "C06.TOTAL", (VPF, "        if attributes is not None:\n            return process_dict_breadth_first", "        if True:\n            return process_dict_breadth_first"))
 M("c06-isinstance-exception", "C06", "C06.TOTAL", (VPF, "    elif issubclass(variable_type, Exception):", "    elif isinstance(value, Exception):"))
 M("c06-raw-key-names", "C06", "C06.TOTAL", (VPF, "NodeValue(func(type_name, safe_str(key)), value[key], safe_str(key))", "NodeValue(func(type_name, key), value[key], key)"))
-M("c06-unguarded-str", "C06", "C06.TOTAL", (VPF, "    try:\n        return str(value)\n    except Exception:\n        return f'{type(value)}@{id(value)}'", "    return str(value)"))
+M("c06-unguarded-str", "C06", "C06.TOTAL", (VPF, "    try:\n        text = str(value)\n    except Exception:\n        text = f'{type(value)}@{id(value)}'", "    text = str(value)"))
 M("c06-len-of-anything", "C06", "C06.TOTAL", (VPF, "    elif variable_type is dict \\\n            or variable_type.__name__ in LIST_LIKE_TYPES:", "    elif hasattr(var_value, '__len__'):"))
 M("c06-iterate-generators", "C06", "C06.TOTAL", (VPF, "    elif variable_type.__name__ in LIST_LIKE_TYPES:\n        return process_list_breadth_first(var_collector, parent_node, value)", "    elif hasattr(value, '__iter__'):\n        return process_list_breadth_first(var_collector, parent_node, value)"))
 M("c06-raw-str-result", "C06", "C06.TOTAL", (VSPF, "        return VariableId(var_id, name), safe_str(value)", "        return VariableId(var_id, name), str(value)"))
@@ -646,7 +646,18 @@ R("c13-api-writes-into-a-copy", "C13",
   (DEEP, "        if args is None:\n            args = {}\n        tp_id = self.config.tracepoints.add_custom",
    "        args = dict(args or {})\n        args['registered_by'] = 'api'\n        tp_id = self.config.tracepoints.add_custom"))
 M("c05-program-str-subclass-cut-by-itself", "C05", "C05.STR",
-  (VPROC, "    try:\n        return str(value)\n    except Exception:\n        return f'{type(value)}@{id(value)}'",
-   "    if isinstance(value, str):\n        return value\n    try:\n        return str(value)\n    except Exception:\n        return f'{type(value)}@{id(value)}'"))
+  (VPROC, "    try:\n        text = str(value)\n", "    if isinstance(value, str):\n        return value\n    try:\n        text = str(value)\n"))
 M("c01-locals-mapping-read-for-every-event", "C01", "C01.R3",
   (TCTX, "        self.__frame = frame\n", "        self.__frame = frame\n        self.__locals = frame.f_locals\n"))
+
+# ------------------------------------------------------------------ C06.TEXT (text made encodable where it is produced)
+ACTX = "src/deep/processor/context/action_context.py"
+_SAN = "    return text.encode('utf-8', 'backslashreplace').decode('utf-8')\n"
+M("c06-sanitiser-hands-out-raw-text", "C06", "C06.TEXT", (VPROC, _SAN, "    return text\n"))
+M("c06-sanitiser-strict-encode", "C06", "C06.TEXT", (VPROC, _SAN, "    return text.encode('utf-8', 'strict').decode('utf-8')\n"))
+R("c06-sanitiser-other-lenient-handler", "C06", (VPROC, _SAN, "    return text.encode('utf-8', errors='replace').decode('utf-8')\n"))
+M("c06-watch-failure-text-unsanitised", "C06", "C06.TEXT", (ACTX, "            error = safe_str(e)\n", "            error = str(e)\n"))
+M("c08-watch-failure-text-unsanitised", "C08", "C08.TEXT", (ACTX, "                error = safe_str(result)\n", "                error = '%s' % (result,)\n"))
+R("c06-watch-failure-text-inline", "C06", (ACTX, "                error = safe_str(result)\n                return WatchResult(source, watch, None, error), {}, error\n",
+                                            "                return WatchResult(source, watch, None, safe_str(result)), {}, safe_str(result)\n"))
+M("c06-dict-key-name-unsanitised", "C06", "C06.TEXT", (VPROC, "NodeValue(func(type_name, safe_str(key)), value[key], safe_str(key))", "NodeValue(func(type_name, str(key)), value[key], safe_str(key))"))
